@@ -399,8 +399,10 @@ def session(R):
     f = R.func(q)
     st = [n for n in g.live_nodes() if n.kind == 'stmt' and isinstance(n.ast, ast.Assign)
           and any(U(t) == 'self.state.session' for t in n.ast.targets)]
-    ok = len(st) == 1 and isinstance(st[0].ast.value, ast.Call) and U(st[0].ast.value.func) == 'session_class' \
-        and [U(a) for a in st[0].ast.value.args] == ['self'] and is_param(rd, st[0], st[0].ast.value.func, 'session_class')
+    # (the object may be built into a local first: `session = session_class(self); self.state.session = session`)
+    ctor, cn = (rd.origin(st[0], st[0].ast.value) if st else (None, None))
+    ok = len(st) == 1 and isinstance(ctor, ast.Call) and U(ctor.func) == 'session_class' \
+        and [U(a) for a in ctor.args] == ['self'] and is_param(rd, cn, ctor.func, 'session_class')
     R.ob('C17.session', 'new session object per connect()', ok, 'state.session = %s' % (U(st[0].ast.value) if st else None),
          func=f, node=(st[0].ast if st else None))
     d = default_of(f, 'session_class')
@@ -410,7 +412,7 @@ def session(R):
     ok = len(rc) >= 1
     for (rn_, rc_) in rc:
         recv = rc_.func.value if isinstance(rc_.func, ast.Attribute) else None
-        ok = ok and isinstance(recv, ast.Name) and bool(st) and rd.defs_at(rn_, recv.id) == {st[0]}
+        ok = ok and isinstance(recv, ast.Name) and bool(st) and rd.defs_at(rn_, recv.id) in ({st[0]}, {cn})
     R.ob('C17.session', 'run() is started on the new session', bool(ok), 'run generator created on %s' % (
         U(rc[0][1].func) if rc else None), func=f, node=(rc[0][1] if rc else None))
     init = R.func('session.WebsocketSession.__init__')
